@@ -221,3 +221,42 @@ Proof.
   - exact He.
   - destruct Hl; simpl; [rewrite repeat_length|]; lia.
 Qed.
+
+(* ---------- the column builder agrees with the index-based branch of the code ---------- *)
+Lemma mk_col_nth lastv d : forall t rs vs es,
+  length rs = length vs -> length vs = length es -> (t < length rs)%nat ->
+  nth_error (mk_col rs vs es lastv d) t =
+  Some {| s_r := nth t rs 0; s_v := nth t vs 0;
+          s_nv := if (S t <? length rs)%nat then nth (S t) vs 0 else lastv;
+          s_nnt := if (S t <? length rs)%nat then 1 - nth (S t) es 0 else 1 - d |}.
+Proof.
+  induction t as [|t IH]; intros rs vs es H1 H2 Ht.
+  - destruct rs as [|r rs]; [simpl in Ht; lia|]. destruct vs as [|v vs]; [discriminate|].
+    destruct es as [|e es]; [discriminate|]. cbn [mk_col].
+    destruct vs as [|v' vs]; destruct es as [|e' es]; simpl in H1, H2; try discriminate.
+    + destruct rs; [reflexivity | discriminate].
+    + destruct rs as [|r' rs]; [discriminate|]. reflexivity.
+  - destruct rs as [|r rs]; [simpl in Ht; lia|]. destruct vs as [|v vs]; [discriminate|].
+    destruct es as [|e es]; [discriminate|]. cbn [mk_col].
+    destruct vs as [|v' vs]; destruct es as [|e' es]; simpl in H1, H2; try discriminate.
+    + destruct rs; [simpl in Ht; lia | discriminate].
+    + destruct rs as [|r' rs]; [discriminate|].
+      cbn [nth_error]. rewrite IH; try (simpl in *; lia).
+      cbn [nth length]. reflexivity.
+Qed.
+
+(* position t of the column the loop consumes carries exactly what the (regenerated) branch
+   `if step == buffer_size - 1` selects: last_values / final dones for the last step,
+   values[t+1] / episode_starts[t+1] otherwise *)
+Theorem mk_col_matches_next_spec rs vs es lastv d t :
+  length rs = length vs -> length vs = length es -> (t < length rs)%nat ->
+  exists s, nth_error (mk_col rs vs es lastv d) t = Some s /\
+    s_r s = nth t rs 0 /\ s_v s = nth t vs 0 /\
+    (s_nnt s, s_nv s) = next_spec (Z.of_nat t) (Z.of_nat (length rs)) d lastv (nth (S t) es 0) (nth (S t) vs 0).
+Proof.
+  intros H1 H2 Ht. eexists. split; [apply mk_col_nth; assumption|]. cbn [s_r s_v s_nv s_nnt].
+  split; [reflexivity|]. split; [reflexivity|]. unfold next_spec.
+  destruct (Nat.ltb_spec (S t) (length rs)) as [Hlt|Hge].
+  - destruct (Z.eqb_spec (Z.of_nat t) (Z.of_nat (length rs) - 1)) as [E|_]; [lia | reflexivity].
+  - destruct (Z.eqb_spec (Z.of_nat t) (Z.of_nat (length rs) - 1)) as [_|E]; [reflexivity | lia].
+Qed.
